@@ -4,11 +4,19 @@ import (
 	"bufio"
 	"bytes"
 	"io"
+	"net"
+	"os"
+	"os/user"
+	"strconv"
 	"strings"
+
+	"github.com/miekg/dns"
+	"github.com/spf13/cobra"
 
 	"istio.io/istio/pkg/log"
 	"istio.io/istio/tools/common/config"
 	"istio.io/istio/tools/istio-iptables/pkg/capture"
+	iptcmd "istio.io/istio/tools/istio-iptables/pkg/cmd"
 	"istio.io/istio/tools/istio-iptables/pkg/constants"
 	dep "istio.io/istio/tools/istio-iptables/pkg/dependencies"
 	_ "verifharness/internal/quiet"
@@ -106,11 +114,15 @@ func (r rawCfg) config() *config.Config {
 type recorder struct {
 	dep.DependenciesStub
 	v4, v6 []string
+	cmds   []string // every external command with its arguments, in order
 }
 
 func (s *recorder) Run(logger *log.Scope, quiet bool, cmd constants.IptablesCmd, iptVer *dep.IptablesVersion,
 	stdin io.ReadSeeker, args ...string,
 ) (*bytes.Buffer, error) {
+	if iptVer != nil {
+		s.cmds = append(s.cmds, strings.Join(append([]string{iptVer.CmdToString(cmd)}, args...), " "))
+	}
 	if stdin != nil {
 		sc := bufio.NewScanner(stdin)
 		sc.Buffer(make([]byte, 1<<20), 1<<26)
@@ -132,16 +144,28 @@ func (s *recorder) Run(logger *log.Scope, quiet bool, cmd constants.IptablesCmd,
 type compiled struct {
 	status string // ok | invalid:<why> | error:<why> | crash
 	v4, v6 []string
+	cmds   []string
+}
+
+func (c compiled) okLine() []string {
+	e := make([]string, len(c.cmds))
+	for i, x := range c.cmds {
+		e[i] = wire.Enc(x)
+	}
+	return []string{"ok", strconv.Itoa(len(c.v4)), strconv.Itoa(len(c.v6)), "cmds=" + strings.Join(e, ",")}
 }
 
 // runReal = cmd/root.go: cfg.Validate() then capture.NewIptablesConfigurator(cfg, ext).Run().
 func runReal(r rawCfg) (out compiled) {
+	return runCfg(r.config())
+}
+
+func runCfg(cfg *config.Config) (out compiled) {
 	defer func() {
 		if e := recover(); e != nil {
 			out = compiled{status: "crash"}
 		}
 	}()
-	cfg := r.config()
 	if err := config.ValidateOwnerGroups(cfg.OwnerGroupsInclude, cfg.OwnerGroupsExclude); err != nil {
 		return compiled{status: "invalid:ownergroups"}
 	}
@@ -164,5 +188,128 @@ func runReal(r rawCfg) (out compiled) {
 	if strings.Join(all, "\n") != strings.Join(ext.ExecutedStdin, "\n") {
 		return compiled{status: "error:recorder"}
 	}
-	return compiled{status: "ok", v4: ext.v4, v6: ext.v6}
+	return compiled{status: "ok", v4: ext.v4, v6: ext.v6, cmds: ext.cmds}
+}
+
+// ---------------------------------------------------------------- the configuration as the binary builds it
+
+// flagNames maps the raw fields to the real command-line flags (constants of the repository).
+func (r rawCfg) flagArgs() []string {
+	var a []string
+	add := func(name, v string) {
+		if v != "" {
+			a = append(a, "--"+name+"="+v)
+		}
+	}
+	add(constants.EnvoyPort, r.ProxyPort)
+	add(constants.InboundCapturePort, r.InboundCapturePort)
+	add(constants.InboundTunnelPort, r.InboundTunnelPort)
+	add(constants.ProxyUID, r.ProxyUID)
+	add(constants.ProxyGID, r.ProxyGID)
+	add(constants.InboundInterceptionMode, r.Mode)
+	add(constants.InboundTProxyMark, r.TProxyMark)
+	add(constants.InboundPorts, r.InboundInclude)
+	add(constants.LocalExcludePorts, r.InboundExclude)
+	add(constants.OutboundPorts, r.OutPortsInclude)
+	add(constants.LocalOutboundPortsExclude, r.OutPortsExclude)
+	add(constants.ServiceCidr, r.OutInclude)
+	add(constants.ServiceExcludeCidr, r.OutExclude)
+	add(constants.RerouteVirtualInterfaces, r.KubeVirt)
+	add(constants.ExcludeInterfaces, r.ExclIfs)
+	if r.RedirectDNS {
+		a = append(a, "--"+constants.RedirectDNS)
+	}
+	if r.DropInvalid {
+		a = append(a, "--"+constants.DropInvalid)
+	}
+	if r.CaptureAllDNS {
+		a = append(a, "--"+constants.CaptureAllDNS)
+	}
+	return a
+}
+
+var flagEnvNames = []string{
+	"ENVOY_PORT", "INBOUND_CAPTURE_PORT", "INBOUND_TUNNEL_PORT", "PROXY_UID", "PROXY_GID", "ISTIO_INBOUND_INTERCEPTION_MODE",
+	"ISTIO_INBOUND_TPROXY_MARK", "ISTIO_INBOUND_TPROXY_ROUTE_TABLE", "ISTIO_INBOUND_PORTS", "ISTIO_LOCAL_EXCLUDE_PORTS",
+	"ISTIO_EXCLUDE_INTERFACES", "ISTIO_SERVICE_CIDR", "ISTIO_SERVICE_EXCLUDE_CIDR", "ISTIO_OUTBOUND_PORTS",
+	"ISTIO_LOCAL_OUTBOUND_PORTS_EXCLUDE", "KUBE_VIRT_INTERFACES", "DRY_RUN", "IPTABLES_PROBE_PORT", "PROBE_TIMEOUT",
+	"SKIP_RULE_APPLY", "RUN_VALIDATION", "REDIRECT_DNS", "ISTIO_META_DNS_CAPTURE", "DROP_INVALID", "INVALID_DROP", "DUAL_STACK",
+	"ISTIO_DUAL_STACK", "CAPTURE_ALL_DNS", "NETWORK_NAMESPACE", "CNI_MODE", "RECONCILE", "CLEANUP_ONLY", "FORCE_APPLY",
+	"NATIVE_NFTABLES", "FORCE_IPTABLES_BINARY", "ENVOY_USER",
+}
+
+func setOrUnset(name, v string, set bool) {
+	if set {
+		os.Setenv(name, v)
+	} else {
+		os.Unsetenv(name)
+	}
+}
+
+// envoyUID is what FillConfigFromEnvironment falls back to for an empty --proxy-uid.
+func envoyUID() string {
+	if u, err := user.Lookup("istio-proxy"); err == nil {
+		return u.Uid
+	}
+	return constants.DefaultProxyUID
+}
+
+func resolvServers() []string {
+	c, err := dns.ClientConfigFromFile("/etc/resolv.conf")
+	if err != nil {
+		return nil
+	}
+	return c.Servers
+}
+
+// runRealEnv builds the configuration the way the istio-iptables binary does: config.DefaultConfig(),
+// the real flag set (cmd.bindCmdlineFlags through the verif hook) parsing real arguments, then
+// Config.FillConfigFromEnvironment() (environment variables, pod address family, /etc/resolv.conf).
+// `~` in an environment-only field = variable unset.
+func runRealEnv(r rawCfg, ogInclSet, ogExclSet, loSet bool) (out compiled, filled rawCfg) {
+	defer func() {
+		if e := recover(); e != nil {
+			out = compiled{status: "crash"}
+		}
+	}()
+	for _, n := range flagEnvNames {
+		os.Unsetenv(n)
+	}
+	setOrUnset(constants.OwnerGroupsInclude.Name, r.OwnerGroupsInclude, ogInclSet)
+	setOrUnset(constants.OwnerGroupsExclude.Name, r.OwnerGroupsExclude, ogExclSet)
+	setOrUnset(constants.HostIPv4LoopbackCidr.Name, r.LoCidr, loSet)
+	addr := "10.1.2.3"
+	if r.IPv6 {
+		addr = "2001:db8::3"
+	}
+	old := config.LocalIPAddrs
+	config.LocalIPAddrs = func() ([]net.Addr, error) {
+		return []net.Addr{&net.IPNet{IP: net.ParseIP("127.0.0.1"), Mask: net.CIDRMask(8, 32)},
+			&net.IPNet{IP: net.ParseIP(addr), Mask: net.CIDRMask(32, 128)}}, nil
+	}
+	defer func() { config.LocalIPAddrs = old }()
+	cfg := config.DefaultConfig()
+	c := &cobra.Command{Use: "istio-iptables"}
+	iptcmd.VerifBindFlags(cfg, c)
+	if err := c.ParseFlags(r.flagArgs()); err != nil {
+		return compiled{status: "error:flags"}, r
+	}
+	if err := cfg.FillConfigFromEnvironment(); err != nil {
+		return compiled{status: "error:environment"}, r
+	}
+	return runCfg(cfg), rawFromConfig(cfg)
+}
+
+func rawFromConfig(c *config.Config) rawCfg {
+	return rawCfg{
+		ProxyPort: c.ProxyPort, InboundCapturePort: c.InboundCapturePort, InboundTunnelPort: c.InboundTunnelPort,
+		ProxyUID: c.ProxyUID, ProxyGID: c.ProxyGID, Mode: c.InboundInterceptionMode, TProxyMark: c.InboundTProxyMark,
+		InboundInclude: c.InboundPortsInclude, InboundExclude: c.InboundPortsExclude,
+		OwnerGroupsInclude: c.OwnerGroupsInclude, OwnerGroupsExclude: c.OwnerGroupsExclude,
+		OutPortsInclude: c.OutboundPortsInclude, OutPortsExclude: c.OutboundPortsExclude,
+		OutInclude: c.OutboundIPRangesInclude, OutExclude: c.OutboundIPRangesExclude,
+		KubeVirt: c.RerouteVirtualInterfaces, ExclIfs: c.ExcludeInterfaces,
+		RedirectDNS: c.RedirectDNS, DropInvalid: c.DropInvalid, CaptureAllDNS: c.CaptureAllDNS, IPv6: c.EnableIPv6,
+		DNSV4: c.DNSServersV4, DNSV6: c.DNSServersV6, LoCidr: c.HostIPv4LoopbackCidr,
+	}
 }
